@@ -60,7 +60,7 @@ func (e *vExpr) String() string {
 	case "lit":
 		return `"x"`
 	case "lit2":
-		return `"a\"\\b%d"`
+		return `"a\"\\b%d\\"`
 	case "prod":
 		return fmt.Sprintf("P%d", e.prod)
 	case "uni":
@@ -203,7 +203,9 @@ func specFirst(e *vExpr, bodies []*vExpr, nul []bool, out map[int]bool) {
 }
 
 // specLeftRecursive: some production reachable from P0 can re-enter itself before consuming a token.
-func specLeftRecursive(bodies []*vExpr) bool {
+func specLeftRecursive(bodies []*vExpr) bool { return specLeftRec(bodies, false) }
+
+func specLeftRec(bodies []*vExpr, allReachable bool) bool {
 	n := len(bodies)
 	nul := make([]bool, n)
 	for changed := true; changed; {
@@ -258,12 +260,15 @@ func specLeftRecursive(bodies []*vExpr) bool {
 	}
 	mark(bodies[0])
 	for i := range bodies {
-		if reach[i] && first[i][i] {
+		if (reach[i] || allReachable) && first[i][i] {
 			return true
 		}
 	}
 	return false
 }
+
+// specLeftRecursiveAny: some production (all are taken as reachable) can re-enter itself before consuming a token.
+func specLeftRecursiveAny(bodies []*vExpr) bool { return specLeftRec(bodies, true) }
 
 // ---- building the real node graph ----
 
@@ -278,7 +283,7 @@ func vBuild(e *vExpr, prods []*strct) node {
 	case "lit":
 		return &literal{s: "x", t: lexer.EOF}
 	case "lit2":
-		return &literal{s: "a\"\\b%d", t: lexer.EOF}
+		return &literal{s: "a\"\\b%d\\", t: lexer.EOF}
 	case "prod":
 		return prods[e.prod]
 	case "eof":
@@ -378,9 +383,9 @@ func validateNoPanic(n node) (err error, panicked interface{}) {
 
 // TestVerif_C08_LeftRecursion: validate() errs exactly for the grammars in which some reachable production can
 // re-enter itself before consuming a token.
-func TestVerif_C08_LeftRecursion(t *testing.T) {
-	res := &verifResult{Check: "validate left recursion", Property: "C08", Exhaustive: true,
-		Bound: "all grammars with one production whose body has <= 4 (thorough: 5) operator/leaf nodes, and all grammars with two productions with bodies of <= 3 (thorough: P0 <= 3, P1 <= 4) nodes, over {literal, production reference, a union-typed reference (members: the other production), a reference to the EOF token, an untyped \"\" literal, sequence, choice, ? * + !, ~, (?= ), (?! ), capture, redundant parentheses}; node graphs built directly in-package",
+func TestVerif_C08C06C19_LeftRecursion(t *testing.T) {
+	res := &verifResult{Check: "validate left recursion", Property: "C08 C06 C19", Exhaustive: true,
+		Bound: "all grammars with one production whose body has <= 4 (thorough: 5) operator/leaf nodes, and all grammars with two productions with bodies of <= 3 (thorough: P0 <= 3, P1 <= 4) nodes, over {literal, production reference, a union-typed reference (members: the other production), a reference to the EOF token, an untyped \"\" literal, sequence, choice, ? * + !, ~, (?= ), (?! ), capture, redundant parentheses}; node graphs built directly in-package; the smaller two-production grammars also entered through a union of all their productions",
 		Rule: "distinct grammars; non-trivial = the specification says left-recursive, or the grammar has a nullable prefix / second alternative before a production reference"}
 	one, twoA, twoB := 4, 3, 3
 	if verifThorough() {
@@ -412,6 +417,31 @@ func TestVerif_C08_LeftRecursion(t *testing.T) {
 			res.sample(fmt.Sprintf("%s => leftRecursive=%v", d, want))
 		}
 	}
+	// the same grammars entered through a union of all their productions (the root need not be a struct)
+	checkUnionRoot := func(bodies []*vExpr) {
+		res.Evaluations++
+		prods := vGrammar(bodies)
+		u := &union{unionDef: unionDef{typ: reflect.TypeOf((*fmt.Stringer)(nil)).Elem()}}
+		for _, p := range prods {
+			u.members = append(u.members, p.typ)
+			u.disjunction.nodes = append(u.disjunction.nodes, p)
+		}
+		err, p := validateNoPanic(u)
+		// every production is reachable now: left-recursive iff some production can re-enter itself
+		want := specLeftRecursiveAny(bodies)
+		d := "union root over " + vDescribe(bodies)
+		if p != nil {
+			res.violate("validate panicked on %s: %v", d, p)
+			return
+		}
+		if (err != nil) != want {
+			if want {
+				res.violate("accepted although left-recursive: %s", d)
+			} else {
+				res.violate("rejected although not left-recursive: %s (%v)", d, firstLineOf(err))
+			}
+		}
+	}
 	memo1 := map[int][]*vExpr{}
 	for s := 1; s <= one; s++ {
 		for _, e := range vEnum(s, 1, memo1) {
@@ -424,6 +454,9 @@ func TestVerif_C08_LeftRecursion(t *testing.T) {
 			for sb := 1; sb <= twoB; sb++ {
 				for _, b := range vEnum(sb, 2, memo2) {
 					check([]*vExpr{a, b})
+					if sa+sb <= 5 {
+						checkUnionRoot([]*vExpr{a, b})
+					}
 				}
 			}
 		}
